@@ -29,7 +29,8 @@ def task(W, payload):
     # every third program supplies the whole initial population as an array graph object of parameters (init_population_with_graphobject)
     shared_role = payload["index"] % 3 == 1
     prog = Gen(r, Opts(max_strats=2, max_flows=5, n_requests=4, allow_rebalance=True, allow_array_pop=(payload["index"] % 3 == 0),
-                       allow_param_split=not shared_role)).program()
+                       allow_param_split=not shared_role, mixing_pair_bias=(0.7 if payload["index"] % 3 == 2 else 0.0),
+                       force_infection=(payload["index"] % 3 == 2))).program()
     out = mk_out(prog)
     if shared_role:
         # ONE parameter object in two roles: the rate of an (earlier registered) importation flow and the only parameterised entry of the
